@@ -1,3 +1,5 @@
+import re
+
 import click
 import tinycss2
 from tinycss2.ast import QualifiedRule, Declaration, AtRule
@@ -414,8 +416,13 @@ def main(path, default_bg, mode, premium):
                 # another file of the project, even at one of the inputs)
                 output_path.unlink()
 
+            # An escaped surrogate code point (e.g. "\\d83d") means U+FFFD in CSS, but tinycss2
+            # hands it back as a lone surrogate, which cannot be encoded: the write would fail
+            # half-way and leave an empty output file.
+            output_css = re.sub("[\ud800-\udfff]", "\ufffd", tinycss2.serialize(rules))
+
             with open(output_path, "w", encoding="utf-8") as f:
-                f.write(tinycss2.serialize(rules))
+                f.write(output_css)
 
         except Exception as e:
             click.echo(f"Error processing {file_path}: {e}", err=True)
